@@ -105,11 +105,36 @@ static void applyCfg(Scenario* s, const Cfg& c) {
 // ------------------------------------------------------------------ property drivers
 struct Bounds { int dev, chunk, req; bool hash; };
 
-static std::string scenarioCase(const std::string& prop, size_t idx, const vp::Explorer& ex) {
+static std::string scenarioCase(const std::string& prop, size_t idx, const vp::Explorer& ex);
+static std::string scenarioCase_(const std::string& prop, size_t idx, const vp::Explorer& ex) {
   return "prop=" + prop + ";tier=" + g_tier + ";sc=" + std::to_string(idx) + ";ch=" + ex.choicesStr();
 }
 
+static std::string scenarioCase(const std::string& prop, size_t idx, const vp::Explorer& ex) { return scenarioCase_(prop, idx, ex); }
 typedef std::function<std::vector<Monitor*>(World&, VSink*)> MonFactory;
+
+// sanitizer builds: turn a fatal sanitizer report into a recorded violation of the running case
+static const std::string* g_curProp = nullptr;
+static size_t g_curIdx = 0;
+static vp::Explorer* g_curEx = nullptr;
+static bool g_inRun = false, g_isReplay = false;
+static std::string g_out;
+extern "C" void __sanitizer_set_death_callback(void (*callback)(void)) __attribute__((weak));
+static void onSanitizerDeath() {
+  if (!g_inRun || g_curEx == nullptr) return;
+  g_inRun = false;
+  // the choices taken so far identify the execution (later defaults are implied)
+  std::string cs = scenarioCase(*g_curProp, g_curIdx, *g_curEx);
+  if (g_isReplay) {
+    printf("VIOLATES %s/memory-error: sanitizer report (see stderr) in case %s\n", g_curProp->c_str(), cs.c_str());
+    fflush(stdout);
+    _exit(1);
+  }
+  R.violation(*g_curProp + "/memory-error", "AddressSanitizer/UBSan report while executing this case", cs);
+  R.cap("aborted at the first sanitizer report");
+  R.write(g_out);
+  _exit(0);
+}
 
 static void runScenario(const std::string& prop, size_t idx, const Scenario& sc, const Bounds& b,
                         const MonFactory& mf, const std::vector<uint16_t>* replay, int slice = 0) {
@@ -123,7 +148,10 @@ static void runScenario(const std::string& prop, size_t idx, const Scenario& sc,
     w.logging = replay != nullptr;
     std::vector<Monitor*> mons = mf(w, &sink);
     w.mons = mons;
+    g_curProp = &prop; g_curIdx = idx; g_curEx = &e; g_inRun = true;
     w.run();
+    g_inRun = false;
+    if (w.leaked != 0 && prop == "C04") sink.add("C04/leaked-request", std::to_string(w.leaked) + " self-deleting request object(s) were neither deleted by the handler nor left in its queues");
     R.transitions += w.reads;
     if (w.capHit) R.cap("step cap hit in scenario " + sc.name);
     if (replay != nullptr) {
@@ -430,6 +458,52 @@ static std::vector<Scenario> scenariosC15(bool thorough, const vp::Args& A) {
   return v;
 }
 
+
+// ---- C04 (fault sequences) ----
+static std::vector<Scenario> scenariosC04(bool thorough, const vp::Args& A) {
+  std::vector<Scenario> v;
+  for (int enh = 0; enh < 2; enh++) {
+    for (int shape = 0; shape < (thorough ? 8 : 6); shape++) {
+      for (int retr = 0; retr < 2; retr++) {
+        Scenario s;
+        s.enhanced = enh;
+        s.busLostRetries = retr ? 0 : 2;
+        s.faults = true;
+        s.drainAtEnd = true;
+        s.chunking = false;
+        s.alphabet = Bytes{0x00, 0xFF, 0xAA, 0x55};
+        s.contenders = Bytes{0x10, 0x21};
+        s.tailSyns = 2;
+        Bytes m1 = {0x31, 0x08, 0xb5, 0x09, 0x01, 0x0d}, m2 = {0x31, 0xfe, 0x07, 0x04, 0x00}, m3 = {0x31, 0x10, 0xb5, 0x10, 0x01, 0xa9};
+        auto add = [&](const Bytes& m, const Bytes& r, int kind, int restarts, bool late, int resub) {
+          ReqSpec q; q.master = m; q.responder = responder(m, r, 0); q.kind = kind; q.restarts = restarts; q.late = late; q.resubmits = resub;
+          s.reqs.push_back(q);
+          if (late) s.r++;
+        };
+        switch (shape) {
+          case 0: add(m1, Bytes{0x01, 0x5a}, 0, 0, false, 0); break;                                    // one waited request
+          case 1: add(m2, Bytes{}, 1, 0, false, 0); break;                                              // one fire-and-forget
+          case 2: add(m1, Bytes{0x01, 0x5a}, 1, 1, false, 0); break;                                    // restarting poll-like request
+          case 3: add(m1, Bytes{0x01, 0x5a}, 0, 0, false, 1); add(m2, Bytes{}, 1, 0, false, 0); break;  // waited (re-submitted once) + fire-and-forget
+          case 4: add(m1, Bytes{0x01, 0x5a}, 0, 0, true, 0); add(m3, Bytes{}, 1, 1, true, 0); break;    // both arriving at any read call
+          case 5: add(m2, Bytes{}, 1, 0, false, 0); add(m3, Bytes{}, 0, 0, false, 0); add(m1, Bytes{0x01, 0x5a}, 1, 1, false, 0); break;
+          case 6: add(m1, Bytes{0x01, 0x5a}, 0, 0, true, 1); add(m2, Bytes{}, 1, 0, true, 0); add(m3, Bytes{}, 1, 1, true, 0); break;
+          case 7: add(m1, Bytes{0x01, 0x5a}, 0, 1, false, 2); break;
+        }
+        s.k = 2;
+        if (thorough && shape <= 3) s.k = 3;
+        if (!thorough && s.r >= 2) s.k = 1;
+        s.c = 0;
+        s.slices = (s.k + s.r >= 3) ? 16 : 4;
+        if (s.k + s.r >= 4) s.slices = 64;
+        s.name = std::string(enh ? "enh" : "plain") + "/shape" + std::to_string(shape) + "/retr" + std::to_string(retr) + "/k" + std::to_string(s.k) + "r" + std::to_string(s.r);
+        v.push_back(s);
+      }
+    }
+  }
+  return v;
+}
+
 // ---- C01 ----
 static std::vector<Scenario> scenariosC01(bool thorough, const vp::Args& A) {
   std::vector<Scenario> v;
@@ -485,6 +559,9 @@ int main(int argc, char** argv) {
   }
   R.setDeadline(A);
   g_tier = A.tier;
+  g_out = A.out;
+  g_isReplay = A.replay;
+  if (__sanitizer_set_death_callback) __sanitizer_set_death_callback(onSanitizerDeath);
   validateEvery = A.getInt("validate-every", 0);
   validateMaxK = A.getInt("validate-maxk", 1);
   bool th = A.thorough();
@@ -498,6 +575,9 @@ int main(int argc, char** argv) {
   } else if (prop == "C02") {
     scs = scenariosC02(th, A);
     mf = [](World& w, VSink* s) { return std::vector<Monitor*>{new ActiveMonitor(s, w.sc, true, false)}; };
+  } else if (prop == "C04") {
+    scs = scenariosC04(th, A);
+    mf = [](World& w, VSink* s) { return std::vector<Monitor*>{new CompletionMonitor(s, &w)}; };
   } else if (prop == "C15") {
     scs = scenariosC15(th, A);
     mf = [](World& w, VSink* s) { return std::vector<Monitor*>{new AnswerMonitor(s, w.sc)}; };
